@@ -454,10 +454,29 @@ def d_arrb1(E, fv, st, node, prog):
     return SArrVal("b1", [z3.IntVal(0)], {"v": z3.Lambda([c], body)})
 
 
+def d_arrf1(E, fv, st, node, prog):
+    """arrf1(lambda t: e): the 1-D float array value with (finite, non-NaN) elements e"""
+    lam = node.args[0]
+    n_ = lam.args.args[0].arg
+    c = z3.Int("arr!%s" % n_)
+    s = st.fork()
+    s.assumes = st.assumes
+    s.env[n_] = SInt(c)
+    body = fv.to_float(fv.ev(lam.body, s, False)).v
+    return SArrVal("f8", [z3.IntVal(0)], {"v": z3.Lambda([c], body), "nan": z3.K(I, FALSE), "ninf": z3.K(I, FALSE)})
+
+
 def d_xlog(E, fv, st, node, prog):
     (v,) = _args(fv, st, node, False, 1)
     f = fv.to_float(v)
     return SFloat(LOG(f.v), z3.simplify(f.v == 0))
+
+
+def d_xexp(E, fv, st, node, prog):
+    """ghost exp on extended reals: exp(-inf) = 0"""
+    (v,) = _args(fv, st, node, False, 1)
+    f = fv.to_float(v)
+    return SFloat(z3.simplify(z3.If(f.ninf, z3.RealVal(0), EXP(f.v))))
 
 
 def _uf1(name, F):
@@ -540,7 +559,8 @@ BUILTINS = {
     "arr2": d_arr2,
     "arr1": d_arr2,
     "arrb1": d_arrb1,
-    "exp": _uf1("exp", EXP),
+    "arrf1": d_arrf1,
+    "exp": d_xexp,
     "lgamma": _uf1("lgamma", LGAMMA),
 }
 for _n, _b in AXIOMS.items():
